@@ -148,6 +148,10 @@ def garg(arg, param):
     return param if arg == ("p",) else arg[1]
 
 
+def const_bound(e):
+    return e[0] == "c" or (e[0] in "+*" and const_bound(e[1]) and const_bound(e[2]))
+
+
 def eval_bound(e, st, param):
     k = e[0]
     if k == "c":
@@ -589,7 +593,7 @@ def run(ctx):
                         tags.append("bound-const" if a_["lo"][0] == "c" else "bound-fluent")
                         stats["steps_interval_%s%s" % ("o" if a_["lopen"] else "c", "o" if a_["ropen"] else "c")] += 1
                         stats["steps_bound_%s" % ("const" if a_["lo"][0] == "c" else "fluent")] += 1
-                        stats["steps_lo%s_hi%s_%s%s" % ("C" if a_["lo"][0] == "c" else "F", "C" if a_["hi"][0] == "c" else "F",
+                        stats["steps_lo%s_hi%s_%s%s" % ("C" if const_bound(a_["lo"]) else "F", "C" if const_bound(a_["hi"]) else "F",
                                                         "o" if a_["lopen"] else "c", "o" if a_["ropen"] else "c")] += 1
                     else:
                         stats["steps_instantaneous"] += 1
